@@ -273,7 +273,13 @@ where
 
     async fn predicate_wrapper(&self, predicate: &Option<ActiveBlobPred>) -> bool {
         if let Some(predicate) = predicate {
-            predicate(self.inner.active_blob_stat().await)
+            let stat = self.inner.active_blob_stat().await;
+            // The predicate is user code running inside the worker task: a panic in it must not
+            // stop background maintenance, the request is ignored instead
+            std::panic::catch_unwind(|| predicate(stat)).unwrap_or_else(|_| {
+                error!("force update predicate panicked, request ignored");
+                false
+            })
         } else {
             true
         }
